@@ -60,10 +60,17 @@ def check_case(acc, src, origin):
             fid = "F08a"
         if fid is None:
             # F10c (nested field with its own spec inside a format spec): counterfactual - with the inner spec removed the stream tiles
-            neutral = re.sub(r"\{(\w+):[^{}'\"]*\{\w+\}\}", r"{\1}", src)
+            from . import c10
+
+            ptoks = gen_py.py_tokens(src)
+            neutral = (c10.strip_deep_specs(src, ptoks) if ptoks else None) or re.sub(r"\{(\w+):[^{}'\"]*\{\w+\}\}", r"{\1}", src)
+            if neutral == src:
+                # text that CPython cannot tokenize: a field with a spec of its own after a ':' that is still open (spec context)
+                neutral = re.sub(r"(:(?:[^{}\"]|\{\w+\})*)\{(\w+):[^{}]*\}", r"\1{\2}", src)
             if neutral != src:
                 o2 = base.guarded(_tok, neutral)
-                if o2.kind == "tree" and not tokcheck.tiling_violations(neutral, o2.value):
+                # no violation remains: the neutralised text tiles, or the tokenizer rejects it (then it is outside the property's domain)
+                if o2.rejected or (o2.kind == "tree" and not tokcheck.tiling_violations(neutral, o2.value)):
                     fid = "F10c"
         if fid:
             acc.finding(fid, src[:100])
